@@ -107,6 +107,11 @@ def run(tier, seed):
     t0.add("def test_c():"); t0.add("    pass"); t0.add("")
     t0.add('@pytest.mark.parametrize("db2, user_db, db", [(1, 2, 3)], indirect=["db", "user_db"])', hot=True)
     t0.add("def test_d(db2, user_db, db):", hot=True); t0.add("    pass")
+    # an indirect parametrize mark ABOVE a usefixtures mark: the analyzer records the usefixtures names of a function
+    # first, so the file's usage list is not in line order - every usage is found from its own position all the same
+    t0.add(""); t0.add('@pytest.mark.parametrize("db2", [1], indirect=True)', hot=True)
+    t0.add('@pytest.mark.usefixtures("db")', hot=True)
+    t0.add("def test_e(db2):", hot=True); t0.add("    pass")
     ws.add("test_words.py", t0)
     ws.order = list(ws.files); ws.meta = {"fixed": "names that are parts of one another in one literal"}
     cases.case("wwords", ws.meta)
